@@ -99,26 +99,30 @@ def check_verbose(src):
 
 
 def check_preprocessor(src):
-    calls = []
     marker = "int pp_added_%d;\n" % len(src)
+    # what the hook returns: the content with a declaration added, a constant text, and nothing at all (a header whose
+    # whole body is behind a platform macro) -- in every case the return value is what must be parsed
+    for label, ret in (("content with a marker", lambda c: marker + (c or "")), ("a constant text", lambda c: "int only_pp;\n"),
+                       ("the empty string", lambda c: ""), ("blank lines", lambda c: "\n\n")):
+        calls = []
 
-    def pp(filename, content):
-        calls.append((filename, content))
-        return marker + (content or "")
-    try:
-        got = parse_string(src, filename="x.h", options=ParserOptions(preprocessor=pp))
-    except Exception as e:
-        got = ("err", type(e).__name__)
-    try:
-        want = parse_string(marker + src, filename="x.h")
-    except Exception as e:
-        want = ("err", type(e).__name__)
-    if len(calls) != 1:
-        return "preprocessor called %d times" % len(calls)
-    if calls[0] != ("x.h", src):
-        return "preprocessor called with %r" % (calls[0],)
-    if got != want:
-        return "parsing with a preprocessor differs from parsing its return value"
+        def pp(filename, content, ret=ret):
+            calls.append((filename, content))
+            return ret(content)
+        try:
+            got = parse_string(src, filename="x.h", options=ParserOptions(preprocessor=pp))
+        except Exception as e:
+            got = ("err", type(e).__name__)
+        try:
+            want = parse_string(ret(src), filename="x.h")
+        except Exception as e:
+            want = ("err", type(e).__name__)
+        if len(calls) != 1:
+            return "preprocessor called %d times" % len(calls)
+        if calls[0] != ("x.h", src):
+            return "preprocessor called with %r" % (calls[0],)
+        if got != want:
+            return "parsing with a preprocessor that returns %s differs from parsing its return value" % label
     return None
 
 
